@@ -141,3 +141,7 @@ def run(ctx):
         ctx.guarded(r, AC.check_choice_protocol, kind)
     r = ctx.rule("R2s", "native min/max branch on strict comparisons like the interpreter's choice functions", 14)
     ctx.guarded(r, AC.check_strictness)
+    from . import C10
+
+    r = ctx.rule("R5", "output / choice buffers are sized to the tape's counts before every evaluation", 19)
+    ctx.guarded(r, C10.r1_buffers)
